@@ -133,7 +133,8 @@ fn a_history(seed: u64, k: u64, sink: &mut Sink) -> Run {
     for u in ["u1", "u2"] {
         r.apply(sink, &json!({"m":"faucet","a":u,"d":"IBCTIA","x":2000}));
     }
-    let n = rng.gen_range(0..=6);
+    // (the second history is a long one: more tracked transfers than any page size used by the contract)
+    let n = if k == 1 { 14 } else { rng.gen_range(0..=6) };
     for _ in 0..n {
         r.apply(sink, &json!({"m":"liquid_stake","s":"u1","funds":[["IBCTIA",rng.gen_range(10..90u64)]],"mint_to":"","to_native":"none","expected":-1}));
         if rng.gen_bool(0.4) {
@@ -172,7 +173,7 @@ pub fn records(seed: u64, nhist: u64) -> Vec<Value> {
                     w.store.m.remove(&map_key("inflight", id));
                 }
             }
-            downgrade_1_0_0(&mut w, if no_tracked { 2 } else { (k % 3) as usize });
+            downgrade_1_0_0(&mut w, if no_tracked { 2 } else if k == 1 { 12 } else { (k % 3) as usize });
             let prepk: Vec<Value> = map_entries(&w, "inflight").iter().map(|(id, v)| json!([id, v["sequence"], v["amount"], v["status"]])).collect();
             let prewait: Vec<Value> = map_entries(&w, "ibc_waiting_for_reply").iter().map(|(id, v)| json!([id, v["amount"]])).collect();
             let before = others(&w, &["inflight", "ibc_waiting_for_reply", "contract_info"]);
